@@ -1559,7 +1559,16 @@ def driven_sources(ctx, binp, names, count, cell, extra):
 
     def one(j):
         lp, cfg, n, ln = j
-        p, dt = run([binp, "-drive", str(n), "-len", str(ln), "-out", lp, "-cfg", json.dumps(cfg)], 900)
+        cmd = [binp, "-drive", str(n), "-len", str(ln), "-out", lp, "-cfg", json.dumps(cfg)]
+        p, dt = run(cmd, 900)
+        if p.returncode != 0 and any(m in p.stdout for m in CRASH_MARKS):
+            # a Go runtime crash while the driver runs valid operations on the real world is behaviour of the code under
+            # test: confirmed by an identical second run, then reported for the property checked
+            p2, dt2 = run(cmd, 900)
+            if p2.returncode != 0 and any(m in p2.stdout for m in CRASH_MARKS):
+                ctx.violations.append(dict(cls=ctx.pid + ".crash", detail=p2.stdout[:300], line=0, ops=None, cfg=cfg, family="driven", cell=cell, cmd=cmd))
+                return None
+            p = p2
         if p.returncode != 0:
             raise Inconclusive("driver failed:\n" + p.stdout[-1500:])
         if os.path.exists(lp) and not os.environ.get("VERIF_KEEP"):
@@ -1567,7 +1576,7 @@ def driven_sources(ctx, binp, names, count, cell, extra):
         return ("seq", lp + ".seqs", 1000, cfg)
     with ThreadPoolExecutor(max_workers=NCPU) as ex:
         out = list(ex.map(one, jobs))
-    return out
+    return [o for o in out if o is not None]
 
 
 def check_c12(ctx):
@@ -1812,6 +1821,13 @@ def main(argv):
             len(ctx.violations), time.time() - ctx.t0, rc))
         return rc
     except Inconclusive as e:
+        # what an earlier stage established on the real code stands, whatever a later stage could not conclude
+        if any(v["cls"].startswith(a.pid + ".") for v in ctx.violations):
+            print("(a later stage was inconclusive: %s)" % str(e)[:300])
+            try:
+                return finish(ctx, "a later stage was inconclusive")
+            except Inconclusive:
+                pass
         print("INCONCLUSIVE property=%s: %s" % (a.pid, e))
         return 2
     except Exception:
